@@ -65,8 +65,8 @@ type Result struct {
 	ProbeAddrs map[int]map[uint64]bool // probe id -> (run number << 48 | address): addresses are comparable within one run only
 	// call events of the native runs: (function id, site id)
 	Events     map[[2]int]bool
-	SiteInstr  map[int]ssa.CallInstruction
-	FidFn      map[int]*ssa.Function
+	SiteInstr  map[int][]ssa.CallInstruction // several when the site lies in a generic function with several instances
+	FidFn      map[int][]*ssa.Function
 	NativeRuns int
 	NativeNote []string
 	// filled by MissedAliases
@@ -114,7 +114,7 @@ func constInt(v ssa.Value) (int, bool) {
 }
 
 func isHelper(name string) bool {
-	return strings.HasPrefix(name, "probe") || name == "enter" || name == "yield" || name == "waitAll" ||
+	return strings.HasPrefix(name, "probe") || name == "enter" || name == "Enter" || name == "yield" || name == "waitAll" ||
 		name == "setup" || name == "want" || name == "cond"
 }
 
@@ -126,8 +126,8 @@ func Run(prop, sub string, pp *gen.PtrProg, rep *lib.Report) *Result {
 // RunWith is Run with a chosen oracle and extra oracle input lines computed from the dump.
 func RunWith(prop, sub string, pp *gen.PtrProg, rep *lib.Report, oracle string, extra func(*Result) string) *Result {
 	res := &Result{Prop: prop, Prog: pp, FactsOf: map[int][]string{}, Probes: map[int]*Probe{},
-		ProbeAddrs: map[int]map[uint64]bool{}, ProbeDeref: map[int]map[uint64]bool{}, Events: map[[2]int]bool{}, SiteInstr: map[int]ssa.CallInstruction{},
-		FidFn: map[int]*ssa.Function{}, Timing: map[string]float64{}}
+		ProbeAddrs: map[int]map[uint64]bool{}, ProbeDeref: map[int]map[uint64]bool{}, Events: map[[2]int]bool{}, SiteInstr: map[int][]ssa.CallInstruction{},
+		FidFn: map[int][]*ssa.Function{}, Timing: map[string]float64{}}
 	t0 := time.Now()
 	lap := func(name string) {
 		res.Timing[name] = time.Since(t0).Seconds()
@@ -135,8 +135,19 @@ func RunWith(prop, sub string, pp *gen.PtrProg, rep *lib.Report, oracle string, 
 	}
 	dir := lib.WorkDir(prop, sub)
 	res.Dir = dir
-	lib.WriteProgram(filepath.Join(dir, "an"), "vprog", map[string]string{"main.go": pp.Main, "helpers.go": pp.Stub})
-	lib.WriteProgram(filepath.Join(dir, "nat"), "vprog", map[string]string{"main.go": pp.Main, "helpers.go": pp.Native})
+	anFiles := map[string]string{"main.go": pp.Main, "helpers.go": pp.Stub}
+	natFiles := map[string]string{"main.go": pp.Main, "helpers.go": pp.Native}
+	for k, v := range pp.Shared {
+		anFiles[k], natFiles[k] = v, v
+	}
+	for k, v := range pp.StubFiles {
+		anFiles[k] = v
+	}
+	for k, v := range pp.NativeFiles {
+		natFiles[k] = v
+	}
+	lib.WriteProgram(filepath.Join(dir, "an"), "vprog", anFiles)
+	lib.WriteProgram(filepath.Join(dir, "nat"), "vprog", natFiles)
 
 	// native build in the background
 	natBin := filepath.Join(dir, "nat", "prog")
@@ -186,7 +197,7 @@ func RunWith(prop, sub string, pp *gen.PtrProg, rep *lib.Report, oracle string, 
 		if fn.TypeParams().Len() > 0 && len(fn.TypeArgs()) == 0 {
 			continue // body of a generic function: never executed, only its instances are
 		}
-		if fn.Blocks != nil && (fn.Pkg == nil || fn.Pkg.Pkg.Path() == "vprog") {
+		if fn.Blocks != nil && (fn.Pkg == nil || strings.HasPrefix(fn.Pkg.Pkg.Path(), "vprog")) {
 			allFns = append(allFns, fn)
 		}
 	}
@@ -208,10 +219,14 @@ func RunWith(prop, sub string, pp *gen.PtrProg, rep *lib.Report, oracle string, 
 					if id, ok := constInt(cc.Args[0]); ok {
 						res.Probes[id] = &Probe{ID: id, Fn: fn, Val: cc.Args[1], Call: call}
 					}
-				case name == "enter" && len(cc.Args) == 2:
+				case (name == "enter" || name == "Enter") && len(cc.Args) == 2:
 					if id, ok := constInt(cc.Args[0]); ok {
-						if _, dup := res.FidFn[id]; !dup {
-							res.FidFn[id] = fn
+						dup := false
+						for _, g := range res.FidFn[id] {
+							dup = dup || g == fn
+						}
+						if !dup {
+							res.FidFn[id] = append(res.FidFn[id], fn)
 						}
 					}
 				case isHelper(name):
@@ -222,7 +237,7 @@ func RunWith(prop, sub string, pp *gen.PtrProg, rep *lib.Report, oracle string, 
 					for _, a := range cc.Args {
 						if b, ok := a.Type().Underlying().(*types.Basic); ok && b.Kind() == types.Int {
 							if id, ok := constInt(a); ok {
-								res.SiteInstr[id] = call
+								res.SiteInstr[id] = append(res.SiteInstr[id], call)
 							}
 							break
 						}
@@ -610,6 +625,11 @@ func Replay(res *Result, c int, what string) []byte {
 	b.WriteString("\n==== main.go" + map[bool]string{true: fmt.Sprintf(" (case %d extracted from the generated program)", c), false: ""}[c >= 0] + "\n")
 	b.WriteString(ExtractCase(res.Prog, c))
 	b.WriteString("\n==== helpers_stub.go\n" + res.Prog.Stub + "\n==== helpers_native.go\n" + res.Prog.Native)
+	for _, m := range []map[string]string{res.Prog.Shared, res.Prog.StubFiles} {
+		for k, v := range m {
+			b.WriteString("\n==== " + k + "\n" + v)
+		}
+	}
 	return []byte(b.String())
 }
 
